@@ -13,6 +13,7 @@ import os
 import signal
 import subprocess
 import sys
+import threading
 import time
 import traceback
 import zlib
@@ -193,22 +194,26 @@ class Run:
         self.assumptions = []
         self.exhaustive = {}
         self.t0 = time.time()
+        self._lock = threading.RLock()  # monitors may run in several threads at once (concurrent workloads)
 
     # -- observation API used by monitors and workloads ---------------------
     def count(self, name, n=1):
-        self.counters[name] += n
+        with self._lock:
+            self.counters[name] += n
 
     def evaluated(self, monitor, n=1):
         """A monitor decided something (counted per monitor and in total)."""
-        self.counters["eval:" + monitor] += n
-        self.counters["evaluations"] += n
+        with self._lock:
+            self.counters["eval:" + monitor] += n
+            self.counters["evaluations"] += n
 
     def observe_max(self, name, value):
         value = float(value)
         if not np.isfinite(value):
             return
-        if name not in self.maxima or value > self.maxima[name]:
-            self.maxima[name] = value
+        with self._lock:
+            if name not in self.maxima or value > self.maxima[name]:
+                self.maxima[name] = value
 
     def seen(self, setname, item):
         self.sets[setname].add(item if isinstance(item, str) else json.dumps(to_jsonable(item), sort_keys=True))
@@ -225,7 +230,8 @@ class Run:
 
     def violation(self, monitor, message, witness=None, key=None):
         """Record a refutation. Never raises: the workload keeps going."""
-        self.counters["violations:" + monitor] += 1
+        with self._lock:
+            self.counters["violations:" + monitor] += 1
         entry = {
             "monitor": monitor,
             "message": str(message)[:1000],
@@ -234,9 +240,10 @@ class Run:
             "witness": to_jsonable(witness if witness is not None else {}, 200),
         }
         dedupe = (monitor, key)
-        if len(self.violations) < 400 or (dedupe not in self._vio_keys and len(self.violations) < 2000):
-            self.violations.append(entry)
-        self._vio_keys.add(dedupe)
+        with self._lock:
+            if len(self.violations) < 400 or (dedupe not in self._vio_keys and len(self.violations) < 2000):
+                self.violations.append(entry)
+            self._vio_keys.add(dedupe)
 
     def note_inconclusive(self, reason):
         self.inconclusive.append(str(reason))
@@ -285,6 +292,43 @@ class Run:
 # --------------------------------------------------------------------------
 # Known findings
 # --------------------------------------------------------------------------
+def run_threads(callables, switch_interval=1e-5, timeout=600, rounds=1):
+    """
+    Run the callables concurrently, one thread each, released together by a barrier, with a very short interpreter switch
+    interval so that the threads interleave between (not only inside) numpy calls. Returns [(result, exception)] in the order of
+    the callables; a thread that does not finish within `timeout` seconds yields (None, TimeoutError) - inconclusive, the
+    caller decides. The monitors installed through the tap judge every call made in every thread (the tap keeps one call stack
+    per thread and the Run's counters are locked).
+    """
+    out = [(None, None)] * len(callables)
+    barrier = threading.Barrier(len(callables))
+
+    def work(k, fn):
+        try:
+            barrier.wait(timeout=60)
+            res = None
+            for _ in range(rounds):
+                res = fn()
+            out[k] = (res, None)
+        except BaseException as exc:  # noqa: BLE001
+            out[k] = (None, exc)
+
+    old = sys.getswitchinterval()
+    sys.setswitchinterval(switch_interval)
+    try:
+        threads = [threading.Thread(target=work, args=(k, fn), daemon=True) for k, fn in enumerate(callables)]
+        for th in threads:
+            th.start()
+        deadline = time.time() + timeout
+        for k, th in enumerate(threads):
+            th.join(max(0.0, deadline - time.time()))
+            if th.is_alive():
+                out[k] = (None, TimeoutError("thread %d still running after %ss" % (k, timeout)))
+    finally:
+        sys.setswitchinterval(old)
+    return out
+
+
 def load_known_findings(prop_id):
     path = os.path.join(VERIF, "known_findings.json")
     if not os.path.exists(path):
